@@ -38,6 +38,7 @@ import LfsModel.Fsck
 import LfsModel.FsckScan
 import LfsModel.AttrFilter
 import LfsModel.AuthLoop
+import LfsModel.SmudgeSkip
 import LfsModel.TagRewrite
 import LfsModel.Rewrite
 import LfsModel.Locks
@@ -378,6 +379,10 @@ def showResp (marker : Bytes) (markerName : String) (r : FP.Resp) : String :=
   s!"status={showStatus r.status} content={c} final={match r.final with | some f => showStatus f | none => "-"}"
 
 def c14 : List String → String
+  | ["skipsmudge", cd, wanted, loc] =>
+    -- which answer the smudge paths give for a well-formed pointer: cd = can-delay request, wanted / loc as 0|1
+    let a := if cd == "1" then SmudgeSkip.delayed (wanted == "1") (loc == "1") else SmudgeSkip.oneShot (wanted == "1") (loc == "1")
+    (match a with | .pointer => "pointer" | .content => "content" | .download => "download")
   | ["clean", d] => match unhex d with
     | some data => showResp [] "" (FP.answerClean Sha256.hexDigest ⟨[data], true⟩ []).1
     | none => "bad-op"
